@@ -176,6 +176,10 @@ func TestC15API(t *testing.T) {
 			switch rapid.IntRange(0, 2).Draw(t, "uuidform") {
 			case 0:
 				sp.field = fmt.Sprintf("name%d", i)
+				if rapid.IntRange(0, 2).Draw(t, "hexname") == 0 {
+					// a legal <id> that looks like the hex digits of a uuid without dashes
+					sp.field = fmt.Sprintf("c4ca4238a0b923820dcc509a6f7584%02x", i)
+				}
 			case 1:
 				sp.field = kit.MkUUID(3000 + i)
 			}
@@ -212,6 +216,21 @@ func TestC15API(t *testing.T) {
 		}
 		if len(ops) != len(models) {
 			fail("api.create-ops", "Create of %d models returned %d operations", len(models), len(ops))
+		}
+		// on the wire a symbolic name is tagged "named-uuid" wherever it appears, a uuid "uuid"
+		wire := string(kit.MustJSON(ops))
+		for _, sp := range specs {
+			if sp.field == "" {
+				continue
+			}
+			wrongTag, rightTag := `["uuid","`+sp.field+`"]`, `["named-uuid","`+sp.field+`"]`
+			if kit.IsUUID(sp.field) {
+				wrongTag, rightTag = rightTag, wrongTag
+			}
+			if strings.Contains(wire, wrongTag) {
+				fail("wire.uuid-tag", "the operations encode %q as %s: %s", sp.field, wrongTag, wire)
+			}
+			_ = rightTag
 		}
 		res, err := a.c.Transact(a.ctx, ops...)
 		kase.Results = kit.ResultsJSON(resultPtrs(res))
